@@ -678,3 +678,7 @@ impl<'a> LexiconWriter<'a> {
         Ok(total + info_size)
     }
 }
+
+// verification hook: harness text lives outside the repository (see MANIFEST.hooks)
+#[cfg(any(kani, sudachi_verif))]
+include!(concat!(env!("SUDACHI_VERIF_DIR"), "/dic__build__lexicon.rs"));
